@@ -2,7 +2,7 @@
 import ast
 import z3
 
-from .vals import (VInt, VBool, VReal, VNone, NONE, VObj, VTup, VOpt, VRef, VFunc, VClass, VExc,
+from .vals import (VInt, VBool, VReal, VNone, NONE, VObj, VTup, VOpt, VRef, VFunc, VClass, VExc, VUnb,
                    HList, HDict, HRec, sort_of, to_z3, from_z3, fresh_name, type_of_val, parse_type,
                    T_INT, T_BOOL, T_STR, T_ANY)
 from .state import Unsupported, ContractError, fresh_val, fresh_hlist, fresh_hdict, empty_hlist, empty_hdict
@@ -690,6 +690,26 @@ class StmtMixin:
             s.assume(z3.And(0 <= i, i <= h.n))
             s.env[idx_name] = VInt(i)
             s.env['_i'] = VInt(i)
+            if isinstance(node.target, ast.Name) and h.et is not None:
+                # the loop variable at the loop head (and so after a normal exit): the element of the last completed
+                # iteration, if there was one; what it was before the loop otherwise (unbound -> NameError on a read)
+                prev = s.lookup(node.target.id)
+                last = from_z3(z3.Select(h.arr, i - 1), h.et)
+                if prev is None:
+                    s.env[node.target.id] = VUnb(i > 0, last)
+                elif isinstance(prev, VUnb) or not isinstance(prev, (VFunc, VClass)):
+                    pb = prev.bound if isinstance(prev, VUnb) else z3.BoolVal(True)
+                    pv = prev.val if isinstance(prev, VUnb) else prev
+                    try:
+                        same = type_of_val(pv, s) == h.et
+                    except Exception:
+                        same = False
+                    if same and not isinstance(pv, VRef):
+                        t = h.et
+                        s.env[node.target.id] = VUnb(z3.Or(i > 0, pb), from_z3(z3.If(i > 0, to_z3(last, t), to_z3(pv, t)), t))
+                    else:
+                        from .vals import POISON
+                        s.env[node.target.id] = POISON      # a read after the loop aborts the proof (exit 3), never unsound
             self.assume_invs(s, spec)
             s.path.append(key)
             res = []
